@@ -118,6 +118,9 @@ def order(
             if k not in dependencies:
                 external_keys.add(k)
                 dsk[k] = DataNode(k, object())
+        # Legacy (non-GraphNode) values may refer to the keys that were just added
+        dependencies = DependenciesMapping(dsk)
+        dependents = reverse_dict(dependencies)
 
     expected_len = len(dsk)
     leaf_nodes = {k for k, v in dependents.items() if not v}
